@@ -274,6 +274,54 @@ Section AddAll.
 
     Lemma add_all_inv b b' : P b -> add_all ts b = COk b' -> P b'.
     Proof. apply add_all_inv_gen. auto. Qed.
+
+    (* ... and every position of the forest is visited: add_branch (hence add_directive) succeeded
+       there, in a state that satisfies the invariant *)
+    Lemma add_kids_visits t anc ks :
+      (forall k, In k ks -> occurs ts k (t :: anc)) ->
+      forall b b', P b -> add_kids t anc ks b = COk b' ->
+      forall k, In k ks -> exists b1 b3, P b1 /\ add_branch k (t :: anc) b1 = COk b3.
+    Proof.
+      induction ks as [|k0 r IH]; intros Hocc b b' HP H k Hk; [destruct Hk|].
+      simpl in H. destruct (add_branch k0 (t :: anc) b) as [b2| | |] eqn:E; simpl in H; try discriminate H.
+      destruct Hk as [<-|Hk].
+      - exists b, b2. split; [exact HP | exact E].
+      - apply (IH (fun x Hx => Hocc x (or_intror Hx)) b2 b'); [|exact H|exact Hk].
+        eapply add_branch_inv; [apply Hocc; left; reflexivity | exact HP | exact E].
+    Qed.
+
+    Lemma add_all_visits_root sub : (forall t, In t sub -> In t ts) ->
+      forall b b', P b -> add_all sub b = COk b' ->
+      forall t, In t sub -> exists b1 b3, P b1 /\ add_branch t [] b1 = COk b3.
+    Proof.
+      induction sub as [|t0 r IH]; intros Hsub b b' HP H t Ht; [destruct Ht|].
+      simpl in H. destruct (add_branch t0 [] b) as [b2| | |] eqn:E; simpl in H; try discriminate H.
+      destruct Ht as [<-|Ht].
+      - exists b, b2. split; [exact HP | exact E].
+      - apply (IH (fun x Hx => Hsub x (or_intror Hx)) b2 b'); [|exact H|exact Ht].
+        eapply add_branch_inv; [apply occ_root; apply Hsub; left; reflexivity | exact HP | exact E].
+    Qed.
+
+    Lemma add_all_visits_branch b b' : P b -> add_all ts b = COk b' ->
+      forall t anc, occurs ts t anc -> exists b1 b3, P b1 /\ add_branch t anc b1 = COk b3.
+    Proof.
+      intros HP H t anc Hocc. induction Hocc as [t Ht|p anc t Hp IH Hk].
+      - apply (add_all_visits_root ts (fun x Hx => Hx) b b' HP H t Ht).
+      - destruct IH as [b1 [b3 [HP1 Hb]]]. rewrite add_branch_eq in Hb.
+        destruct (add_directive p anc b1) as [b2| | |] eqn:E; simpl in Hb; try discriminate Hb.
+        assert (HP2 : P b2) by (eapply step; eauto).
+        apply (add_kids_visits p anc (tree_kids p)) with (b := b2) (b' := b3); [|exact HP2|exact Hb|exact Hk].
+        intros k Hk'. apply occ_kid; assumption.
+    Qed.
+
+    Lemma add_all_visits b b' : P b -> add_all ts b = COk b' ->
+      forall t anc, occurs ts t anc -> exists b1 b2, P b1 /\ add_directive t anc b1 = COk b2.
+    Proof.
+      intros HP H t anc Hocc. destruct (add_all_visits_branch b b' HP H t anc Hocc) as [b1 [b3 [HP1 Hb]]].
+      rewrite add_branch_eq in Hb.
+      destruct (add_directive t anc b1) as [b2| | |] eqn:E; simpl in Hb; try discriminate Hb.
+      exists b1, b2. split; [exact HP1 | exact E].
+    Qed.
   End Inv.
 End AddAll.
 
@@ -297,28 +345,36 @@ Lemma tag_add_title t i : t_title (tag_add_iid t i) = t_title t.
 Proof. unfold tag_add_iid; destruct (i_proto i); reflexivity. Qed.
 Lemma tag_add_desc t i : t_desc (tag_add_iid t i) = t_desc t.
 Proof. unfold tag_add_iid; destruct (i_proto i); reflexivity. Qed.
+Lemma tag_add_auto t i : t_auto (tag_add_iid t i) = t_auto t.
+Proof. unfold tag_add_iid; destruct (i_proto i); reflexivity. Qed.
 
+(* the loop of tagsFromTagsDirective (the local fix of Catalog.tags_from_directive) *)
 Section TagsGo.
   Variable td : directive.
-  Variable i : iid.
+  Variable i : option iid.
   Fixpoint tags_go (ns acc : list bytes) (tg : list (bytes * tag))
     : cres (list bytes * list (bytes * tag)) :=
     match ns with
     | [] => COk (acc, tg)
     | n :: r =>
       match om_get beq tg n with
-      | Some _ => tags_go r (acc ++ [n]) (om_update beq tg n (fun t0 => tag_add_iid t0 i))
+      | Some t =>
+        if t_auto t then kerr td "tag not found"
+        else tags_go r (acc ++ [n])
+               (match i with Some j => om_update beq tg n (fun t0 => tag_add_iid t0 j) | None => tg end)
       | None => kerr td "tag not found"
       end
     end.
 End TagsGo.
 
-Definition from_tags_directive (td : directive) (i : iid) (tags : list (bytes * tag)) :=
+Lemma tags_from_directive_unfold td i tags :
+  tags_from_directive td i tags =
   if negb (beq (d_annot td) []) then kerr td "annotation is forbidden"
   else match d_unnamed td with
        | [] => kerr td "required parameter"
        | b :: l => tags_go td i (b :: l) [] tags
        end.
+Proof. reflexivity. Qed.
 
 (* the Tags directive that decides: the interaction's own child, else the child of its parent URL *)
 Definition used_tags_directive (me : dtree) (anc : list dtree) : option directive :=
@@ -332,12 +388,12 @@ Definition used_tags_directive (me : dtree) (anc : list dtree) : option directiv
   end.
 
 Definition auto_tag (i : iid) : tag :=
-  {| t_title := pathTagTitle (i_path i); t_desc := None; t_http := []; t_rpc := [] |}.
+  {| t_title := pathTagTitle (i_path i); t_desc := None; t_http := []; t_rpc := []; t_auto := true |}.
 
 Lemma tags_for_unfold me anc i tags :
   tags_for me anc i tags =
   match used_tags_directive me anc with
-  | Some td => from_tags_directive td i tags
+  | Some td => tags_from_directive td (Some i) tags
   | None =>
     let n := auto_tag_name (i_path i) in
     COk ([n], om_update beq (if om_has beq tags n then tags else tags ++ [(n, auto_tag i)]) n (fun t => tag_add_iid t i))
@@ -357,89 +413,137 @@ Definition tag_spec (me : dtree) (anc : list dtree) (i : iid) : list bytes :=
   | None => [auto_tag_name (i_path i)]
   end.
 
+(* the tag collection after one iteration of the loop *)
+Definition go_next (i : option iid) (tg : list (bytes * tag)) (n : bytes) : list (bytes * tag) :=
+  match i with Some j => om_update beq tg n (fun t0 => tag_add_iid t0 j) | None => tg end.
+
+Lemma go_next_keys i tg n : map fst (go_next i tg n) = map fst tg.
+Proof. destruct i; simpl; [apply om_update_keys | reflexivity]. Qed.
+
+(* entries keep their key and their automatic flag, in both directions *)
+Lemma go_next_back i tg n m t' : In (m, t') (go_next i tg n) -> exists t, In (m, t) tg /\ t_auto t' = t_auto t.
+Proof.
+  destruct i as [j|]; simpl; intro H.
+  - apply om_update_in in H as [t [H1 H2]]. exists t. split; [exact H1|].
+    subst t'. destruct (beq m n); [apply tag_add_auto | reflexivity].
+  - exists t'. split; [exact H | reflexivity].
+Qed.
+
+Lemma go_next_fwd i tg n m t : In (m, t) tg -> exists t', In (m, t') (go_next i tg n) /\ t_auto t' = t_auto t.
+Proof.
+  destruct i as [j|]; simpl; intro H.
+  - exists (if beq m n then tag_add_iid t j else t). split.
+    + apply om_update_in. exists t. split; [exact H | reflexivity].
+    + destruct (beq m n); [apply tag_add_auto | reflexivity].
+  - exists t. split; [exact H | reflexivity].
+Qed.
+
+Ltac go_step H t00 E :=
+  cbn [tags_go] in H;
+  match type of H with context [om_get beq ?tg ?n] => destruct (om_get beq tg n) as [t00|] eqn:E; [|discriminate H] end;
+  match type of H with context [t_auto t00] => destruct (t_auto t00) eqn:?; [discriminate H|] end;
+  fold (go_next) in H.
+
 Lemma tags_go_res td i ns : forall acc tg res tg',
   tags_go td i ns acc tg = COk (res, tg') -> res = acc ++ ns.
 Proof.
-  induction ns as [|n r IH]; intros acc tg res tg' H; simpl in H.
+  induction ns as [|n r IH]; intros acc tg res tg' H.
   - inversion H; subst. rewrite app_nil_r; reflexivity.
-  - destruct (om_get beq tg n) as [t00|]; [|discriminate H].
-    apply IH in H. rewrite H, <- app_assoc. reflexivity.
+  - go_step H t00 E. apply IH in H. rewrite H, <- app_assoc. reflexivity.
 Qed.
 
 Lemma tags_go_keys td i ns : forall acc tg res tg',
   tags_go td i ns acc tg = COk (res, tg') -> map fst tg' = map fst tg.
 Proof.
-  induction ns as [|n r IH]; intros acc tg res tg' H; simpl in H.
+  induction ns as [|n r IH]; intros acc tg res tg' H.
   - inversion H; subst. reflexivity.
-  - destruct (om_get beq tg n) as [t00|]; [|discriminate H].
-    apply IH in H. rewrite H. apply om_update_keys.
+  - go_step H t00 E. apply IH in H. rewrite H.
+    destruct i; [apply om_update_keys | reflexivity].
 Qed.
 
+Lemma tags_go_none td ns : forall acc tg res tg',
+  tags_go td None ns acc tg = COk (res, tg') -> tg' = tg.
+Proof.
+  induction ns as [|n r IH]; intros acc tg res tg' H.
+  - inversion H; subst. reflexivity.
+  - go_step H t00 E. exact (IH _ _ _ _ H).
+Qed.
+
+(* every name is the key of a NON-automatic tag *)
 Lemma tags_go_declared td i ns : forall acc tg res tg',
-  tags_go td i ns acc tg = COk (res, tg') -> forall n, In n ns -> In n (map fst tg).
+  tags_go td i ns acc tg = COk (res, tg') ->
+  forall n, In n ns -> exists t, In (n, t) tg /\ t_auto t = false.
 Proof.
-  induction ns as [|n r IH]; intros acc tg res tg' H m Hm; simpl in H.
+  induction ns as [|n r IH]; intros acc tg res tg' H m Hm.
   - destruct Hm.
-  - destruct (om_get beq tg n) eqn:E; [|discriminate H].
-    destruct Hm as [<-|Hm].
-    + apply (om_get_some beq beq_eq) in E. apply (in_map fst) in E. exact E.
-    + specialize (IH _ _ _ _ H m Hm). rewrite om_update_keys in IH. exact IH.
+  - go_step H t00 E. destruct Hm as [<-|Hm].
+    + apply (om_get_some beq beq_eq) in E. exists t00. split; assumption.
+    + destruct (IH _ _ _ _ H m Hm) as [t1 [H1 H2]].
+      assert (Hb : exists t, In (m, t) tg /\ t_auto t1 = t_auto t).
+      { destruct i as [j|]; [apply (go_next_back (Some j) tg n) | apply (go_next_back None tg n)]; exact H1. }
+      destruct Hb as [t [H3 H4]]. exists t. split; [exact H3 | congruence].
 Qed.
 
-Lemma tags_go_back td i ns : forall acc tg res tg',
-  tags_go td i ns acc tg = COk (res, tg') ->
+Lemma tags_go_back td j ns : forall acc tg res tg',
+  tags_go td (Some j) ns acc tg = COk (res, tg') ->
   forall m t', In (m, t') tg' ->
-  exists t, In (m, t) tg /\ t_title t' = t_title t /\ t_desc t' = t_desc t /\
-            forall p j, In j (tl p t') -> In j (tl p t) \/ (j = i /\ p = i_proto i /\ In m ns).
+  exists t, In (m, t) tg /\ t_title t' = t_title t /\ t_desc t' = t_desc t /\ t_auto t' = t_auto t /\
+            forall p k, In k (tl p t') -> In k (tl p t) \/ (k = j /\ p = i_proto j /\ In m ns).
 Proof.
-  induction ns as [|n r IH]; intros acc tg res tg' H m t' Hin; simpl in H.
+  induction ns as [|n r IH]; intros acc tg res tg' H m t' Hin.
   - inversion H; subst. exists t'. repeat split; auto.
-  - destruct (om_get beq tg n) as [t00|]; [|discriminate H].
-    destruct (IH _ _ _ _ H m t' Hin) as [t1 [H1 [H2 [H3 H4]]]].
+  - go_step H t00 E.
+    destruct (IH _ _ _ _ H m t' Hin) as [t1 [H1 [H2 [H3 [Ha H4]]]]].
     apply om_update_in in H1 as [t [Ht Ht1]].
     exists t. split; [exact Ht|].
-    destruct (beq m n) eqn:E; subst t1.
-    + apply beq_eq in E. subst m. rewrite tag_add_title in H2. rewrite tag_add_desc in H3.
-      repeat split; auto. intros p j Hj. apply H4 in Hj as [Hj|[Ha [Hb Hc]]].
-      * apply tl_add in Hj as [Hj|[Ha Hb]]; [left; exact Hj | right; repeat split; auto; left; reflexivity].
-      * right; repeat split; auto. right; exact Hc.
-    + repeat split; auto. intros p j Hj. apply H4 in Hj as [Hj|[Ha [Hb Hc]]]; [left; exact Hj|].
-      right; repeat split; auto. right; exact Hc.
+    destruct (beq m n) eqn:Em; subst t1.
+    + apply beq_eq in Em. subst m. rewrite tag_add_title in H2. rewrite tag_add_desc in H3. rewrite tag_add_auto in Ha.
+      repeat split; auto. intros p k Hk. apply H4 in Hk as [Hk|[Hx [Hy Hz]]].
+      * apply tl_add in Hk as [Hk|[Hx Hy]]; [left; exact Hk | right; repeat split; auto; left; reflexivity].
+      * right; repeat split; auto. right; exact Hz.
+    + repeat split; auto. intros p k Hk. apply H4 in Hk as [Hk|[Hx [Hy Hz]]]; [left; exact Hk|].
+      right; repeat split; auto. right; exact Hz.
 Qed.
 
-Lemma tags_go_fwd td i ns : forall acc tg res tg',
-  tags_go td i ns acc tg = COk (res, tg') ->
+Lemma tags_go_fwd td j ns : forall acc tg res tg',
+  tags_go td (Some j) ns acc tg = COk (res, tg') ->
   forall m t, In (m, t) tg ->
-  exists t', In (m, t') tg' /\ t_title t' = t_title t /\ t_desc t' = t_desc t /\
-             (forall p j, In j (tl p t) -> In j (tl p t')) /\
-             (In m ns -> In i (tl (i_proto i) t')).
+  exists t', In (m, t') tg' /\ t_title t' = t_title t /\ t_desc t' = t_desc t /\ t_auto t' = t_auto t /\
+             (forall p k, In k (tl p t) -> In k (tl p t')) /\
+             (In m ns -> In j (tl (i_proto j) t')).
 Proof.
-  induction ns as [|n r IH]; intros acc tg res tg' H m t Hin; simpl in H.
+  induction ns as [|n r IH]; intros acc tg res tg' H m t Hin.
   - inversion H; subst. exists t. repeat split; auto. intros [].
-  - destruct (om_get beq tg n) as [t00|]; [|discriminate H].
-    assert (H1 : In (m, if beq m n then tag_add_iid t i else t) (om_update beq tg n (fun t0 => tag_add_iid t0 i))).
+  - go_step H t00 E.
+    assert (H1 : In (m, if beq m n then tag_add_iid t j else t) (om_update beq tg n (fun t0 => tag_add_iid t0 j))).
     { apply om_update_in. exists t. split; [exact Hin | reflexivity]. }
-    destruct (IH _ _ _ _ H _ _ H1) as [t' [Ha [Hb [Hc [Hd He]]]]].
+    destruct (IH _ _ _ _ H _ _ H1) as [t' [Ha [Hb [Hc [Hau [Hd He]]]]]].
     exists t'. split; [exact Ha|].
-    destruct (beq m n) eqn:E.
-    + rewrite tag_add_title in Hb. rewrite tag_add_desc in Hc. repeat split; auto.
-      * intros p j Hj. apply Hd. apply tl_add. left; exact Hj.
+    destruct (beq m n) eqn:Em.
+    + rewrite tag_add_title in Hb. rewrite tag_add_desc in Hc. rewrite tag_add_auto in Hau. repeat split; auto.
+      * intros p k Hk. apply Hd. apply tl_add. left; exact Hk.
       * intros _. apply Hd. apply tl_add. right; split; reflexivity.
     + repeat split; auto. intros [Hm|Hm]; [|exact (He Hm)].
-      subst m. rewrite beq_refl in E. discriminate E.
+      subst m. rewrite beq_refl in Em. discriminate Em.
 Qed.
 
+(* FULL strength: a name that is not the key of a declared (non-automatic) tag - no such key, or only
+   the automatic tag of an earlier interaction - is answered "tag not found" *)
 Lemma tags_go_reject td i ns : forall acc tg,
-  (exists n, In n ns /\ ~ In n (map fst tg)) ->
+  (exists n, In n ns /\ forall t, In (n, t) tg -> t_auto t = true) ->
   tags_go td i ns acc tg = kerr td "tag not found".
 Proof.
-  induction ns as [|n r IH]; intros acc tg [m [Hm Hn]]; simpl.
+  induction ns as [|n r IH]; intros acc tg [m [Hm Hn]].
   - destruct Hm.
-  - destruct (om_get beq tg n) eqn:E.
-    + apply IH. exists m. rewrite om_update_keys. split; [|exact Hn].
-      destruct Hm as [<-|Hm]; [|exact Hm].
-      exfalso. apply Hn. apply (om_get_some beq beq_eq) in E. apply (in_map fst) in E. exact E.
-    + reflexivity.
+  - cbn [tags_go]. destruct (om_get beq tg n) as [t0|] eqn:E; [|reflexivity].
+    destruct (t_auto t0) eqn:Ea; [reflexivity|].
+    apply IH. exists m. split.
+    + destruct Hm as [<-|Hm]; [|exact Hm].
+      exfalso. apply (om_get_some beq beq_eq) in E. apply Hn in E. congruence.
+    + intros t Ht.
+      assert (Hb : exists t1, In (m, t1) tg /\ t_auto t = t_auto t1).
+      { destruct i as [j|]; [apply (go_next_back (Some j) tg n) | apply (go_next_back None tg n)]; exact Ht. }
+      destruct Hb as [t1 [H1 H2]]. rewrite H2. exact (Hn t1 H1).
 Qed.
 
 Record tags_rel (i : iid) (ns : list bytes) (old new : list (bytes * tag)) : Prop := {
@@ -447,12 +551,12 @@ Record tags_rel (i : iid) (ns : list bytes) (old new : list (bytes * tag)) : Pro
             (~ In (auto_tag_name (i_path i)) (map fst old) /\
              map fst new = map fst old ++ [auto_tag_name (i_path i)]);
   tr_back : forall m t', In (m, t') new ->
-      (exists t, In (m, t) old /\ t_title t' = t_title t /\ t_desc t' = t_desc t /\
+      (exists t, In (m, t) old /\ t_title t' = t_title t /\ t_desc t' = t_desc t /\ t_auto t' = t_auto t /\
                  forall p j, In j (tl p t') -> In j (tl p t) \/ (j = i /\ p = i_proto i /\ In m ns))
-      \/ (m = auto_tag_name (i_path i) /\ t_title t' = pathTagTitle (i_path i) /\ t_desc t' = None /\
+      \/ (m = auto_tag_name (i_path i) /\ t_title t' = pathTagTitle (i_path i) /\ t_desc t' = None /\ t_auto t' = true /\
           forall p j, In j (tl p t') -> j = i /\ p = i_proto i /\ In m ns);
   tr_fwd : forall m t, In (m, t) old ->
-      exists t', In (m, t') new /\ t_title t' = t_title t /\ t_desc t' = t_desc t /\
+      exists t', In (m, t') new /\ t_title t' = t_title t /\ t_desc t' = t_desc t /\ t_auto t' = t_auto t /\
                  forall p j, In j (tl p t) -> In j (tl p t');
   tr_names : forall m, In m ns -> exists t', In (m, t') new /\ In i (tl (i_proto i) t')
 }.
@@ -464,26 +568,28 @@ Qed.
 
 Lemma tags_for_spec me anc i tags ns tg' :
   tags_for me anc i tags = COk (ns, tg') ->
-  ns = tag_spec me anc i /\ ns <> [] /\ tags_rel i ns tags tg'.
+  ns = tag_spec me anc i /\ ns <> [] /\ tags_rel i ns tags tg' /\
+  (forall td, used_tags_directive me anc = Some td ->
+     forall n, In n ns -> exists t, In (n, t) tags /\ t_auto t = false).
 Proof.
   rewrite tags_for_unfold. unfold tag_spec.
   destruct (used_tags_directive me anc) as [td|].
-  - unfold from_tags_directive. destruct (negb (beq (d_annot td) [])); [discriminate|].
+  - rewrite tags_from_directive_unfold. destruct (negb (beq (d_annot td) [])); [discriminate|].
     destruct (d_unnamed td) as [|b l] eqn:Eu; [discriminate|]. intro H.
     pose proof (tags_go_res _ _ _ _ _ _ _ H) as Hres. simpl in Hres. subst ns.
-    split; [reflexivity|]. split; [discriminate|].
-    constructor.
-    + left. eapply tags_go_keys; exact H.
-    + intros m t' Hin. left. eapply tags_go_back; [exact H | exact Hin].
-    + intros m t Hin. destruct (tags_go_fwd _ _ _ _ _ _ _ H m t Hin) as [t' [Ha [Hb [Hc [Hd _]]]]].
-      exists t'. repeat split; auto.
-    + intros m Hm. pose proof (tags_go_declared _ _ _ _ _ _ _ H m Hm) as Hk.
-      apply in_map_fst_exists in Hk as [t Ht].
-      destruct (tags_go_fwd _ _ _ _ _ _ _ H m t Ht) as [t' [Ha [_ [_ [_ He]]]]].
-      exists t'. split; [exact Ha | exact (He Hm)].
+    split; [reflexivity|]. split; [discriminate|]. split.
+    + constructor.
+      * left. eapply tags_go_keys; exact H.
+      * intros m t' Hin. left. eapply tags_go_back; [exact H | exact Hin].
+      * intros m t Hin. destruct (tags_go_fwd _ _ _ _ _ _ _ H m t Hin) as [t' [Ha [Hb [Hc [Hau [Hd _]]]]]].
+        exists t'. repeat split; auto.
+      * intros m Hm. destruct (tags_go_declared _ _ _ _ _ _ _ H m Hm) as [t [Ht _]].
+        destruct (tags_go_fwd _ _ _ _ _ _ _ H m t Ht) as [t' [Ha [_ [_ [_ [_ He]]]]]].
+        exists t'. split; [exact Ha | exact (He Hm)].
+    + intros td0 _ n Hn. exact (tags_go_declared _ _ _ _ _ _ _ H n Hn).
   - simpl. intro H. inversion H; subst ns tg'; clear H.
     set (n := auto_tag_name (i_path i)).
-    split; [reflexivity|]. split; [discriminate|].
+    split; [reflexivity|]. split; [discriminate|]. split; [|intros td0 E; discriminate E].
     set (tg0 := if om_has beq tags n then tags else tags ++ [(n, auto_tag i)]).
     assert (Hsub : forall m t, In (m, t) tags -> In (m, t) tg0).
     { intros m t Hin. unfold tg0. destruct (om_has beq tags n); [exact Hin | apply in_or_app; left; exact Hin]. }
@@ -500,18 +606,18 @@ Proof.
         apply in_app_or in H0 as [H0|[H0|[]]]; [left; exact H0|]. right. inversion H0; split; reflexivity. }
       destruct Hcase as [Hold|[Hm Ht0]].
       * left. exists t0. split; [exact Hold|]. subst t'. destruct (beq m n) eqn:E.
-        -- rewrite tag_add_title, tag_add_desc. repeat split; auto. intros p j Hj.
+        -- rewrite tag_add_title, tag_add_desc, tag_add_auto. repeat split; auto. intros p j Hj.
            apply tl_add in Hj as [Hj|[Ha Hb]]; [left; exact Hj|]. right. repeat split; auto.
            apply beq_eq in E. left. symmetry; exact E.
         -- repeat split; auto.
       * right. subst m t0. rewrite beq_refl in Ht'. subst t'.
-        rewrite tag_add_title, tag_add_desc. repeat split; auto.
+        rewrite tag_add_title, tag_add_desc, tag_add_auto. repeat split; auto.
         all: apply tl_add in H as [H|[Ha Hb]]; [destruct p; destruct H | auto].
         left; reflexivity.
     + intros m t Hin. apply Hsub in Hin.
       exists (if beq m n then tag_add_iid t i else t). split.
       * apply om_update_in. exists t. split; [exact Hin | reflexivity].
-      * destruct (beq m n); [rewrite tag_add_title, tag_add_desc|]; repeat split; auto.
+      * destruct (beq m n); [rewrite tag_add_title, tag_add_desc, tag_add_auto|]; repeat split; auto.
         intros p j Hj. apply tl_add. left; exact Hj.
     + intros m [<-|[]]. destruct Hn as [t Ht].
       exists (tag_add_iid t i). split.
@@ -519,17 +625,34 @@ Proof.
       * apply tl_add. right; split; reflexivity.
 Qed.
 
-(* the verdict when a used Tags directive names an unknown tag *)
-Lemma tags_for_undeclared me anc i tags td n :
-  used_tags_directive me anc = Some td -> d_annot td = [] ->
-  In n (d_unnamed td) -> ~ In n (map fst tags) ->
-  tags_for me anc i tags = CErr (kw_err td (CEMsg "tag not found")).
+(* the verdict for a well-formed Tags directive naming something that is not a declared tag *)
+Lemma tags_from_directive_undeclared td i tags n :
+  d_annot td = [] -> In n (d_unnamed td) -> (forall t, In (n, t) tags -> t_auto t = true) ->
+  tags_from_directive td i tags = CErr (kw_err td (CEMsg "tag not found")).
 Proof.
-  intros Hu Ha Hn Hk. rewrite tags_for_unfold, Hu. unfold from_tags_directive. rewrite Ha.
+  intros Ha Hn Hk. rewrite tags_from_directive_unfold. rewrite Ha.
   change (negb (beq [] [])) with false. cbv iota.
   destruct (d_unnamed td) as [|b l] eqn:Eu; [destruct Hn|].
   rewrite (tags_go_reject td i (b :: l) [] tags); [reflexivity|].
   exists n. split; assumption.
+Qed.
+
+Lemma tags_for_undeclared me anc i tags td n :
+  used_tags_directive me anc = Some td -> d_annot td = [] ->
+  In n (d_unnamed td) -> (forall t, In (n, t) tags -> t_auto t = true) ->
+  tags_for me anc i tags = CErr (kw_err td (CEMsg "tag not found")).
+Proof.
+  intros Hu Ha Hn Hk. rewrite tags_for_unfold, Hu. apply tags_from_directive_undeclared with (n := n); assumption.
+Qed.
+
+(* what a successful check says *)
+Lemma tags_from_directive_ok td i tags r :
+  tags_from_directive td i tags = COk r ->
+  forall n, In n (d_unnamed td) -> exists t, In (n, t) tags /\ t_auto t = false.
+Proof.
+  rewrite tags_from_directive_unfold. destruct (negb (beq (d_annot td) [])); [discriminate|].
+  destruct (d_unnamed td) as [|b l] eqn:Eu; [discriminate|]. destruct r as [res tg']. intros H n Hn.
+  exact (tags_go_declared _ _ _ _ _ _ _ H n Hn).
 Qed.
 
 (* ------------------------------------------------------------------------------------- *)
@@ -580,7 +703,8 @@ Inductive cat_step (t : dtree) (anc : list dtree) (c c' : catalog) : Prop :=
     (c_types c' = c_types c \/
      exists n u, ~ In n (map fst (c_types c)) /\ c_types c' = c_types c ++ [(n, u)]) ->
     (c_tags c' = c_tags c \/
-     exists n f, (forall t, t_title (f t) = t_title t /\ t_http (f t) = t_http t /\ t_rpc (f t) = t_rpc t) /\
+     exists n f, (forall t, t_title (f t) = t_title t /\ t_http (f t) = t_http t /\ t_rpc (f t) = t_rpc t /\
+                            t_auto (f t) = t_auto t) /\
                  c_tags c' = om_update beq (c_tags c) n f) ->
     (c_inters c' = c_inters c \/
      exists i g, good (c_inters c) g /\ c_inters c' = om_update iid_eqb (c_inters c) i g) ->
@@ -915,6 +1039,11 @@ Definition declared_tag (ts : list dtree) (n : bytes) (tg : tag) : Prop :=
 Definition automatic_tag (c : catalog) (n : bytes) (tg : tag) : Prop :=
   exists i, In i (map fst (c_inters c)) /\ n = auto_tag_name (i_path i) /\ t_title tg = pathTagTitle (i_path i).
 
+(* the names of the Tags directive that decides for (t, anc) are keys of declared (non-automatic) tags *)
+Definition explicit_declared (tags : list (bytes * tag)) (t : dtree) (anc : list dtree) (ns : list bytes) : Prop :=
+  forall td, used_tags_directive t anc = Some td ->
+  forall n, In n ns -> exists tg, In (n, tg) tags /\ t_auto tg = false.
+
 Record cat_inv (ts : list dtree) (c : catalog) : Prop := {
   ci_servers : NoDup (map fst (c_servers c));
   ci_types : NoDup (map fst (c_types c));
@@ -923,13 +1052,15 @@ Record cat_inv (ts : list dtree) (c : catalog) : Prop := {
   ci_inters : NoDup (map fst (c_inters c));
   ci_src : forall i x, In (i, x) (c_inters c) ->
       iproto x = i_proto i /\
-      exists t anc, occurs ts t anc /\ made_by t anc i /\ itags x = tag_spec t anc i /\ itags x <> [];
+      exists t anc, occurs ts t anc /\ made_by t anc i /\ itags x = tag_spec t anc i /\ itags x <> [] /\
+                   explicit_declared (c_tags c) t anc (itags x);
   ci_t1 : forall i x n, In (i, x) (c_inters c) -> In n (itags x) ->
       exists tg, In (n, tg) (c_tags c) /\ In i (tl (i_proto i) tg);
   ci_t2 : forall n tg p j, In (n, tg) (c_tags c) -> In j (tl p tg) ->
       i_proto j = p /\ exists x, In (j, x) (c_inters c) /\ In n (itags x);
   ci_bodies : all_bodies_ok (c_inters c);
-  ci_titles : forall n tg, In (n, tg) (c_tags c) -> declared_tag ts n tg \/ automatic_tag c n tg
+  ci_titles : forall n tg, In (n, tg) (c_tags c) ->
+      (t_auto tg = false /\ declared_tag ts n tg) \/ (t_auto tg = true /\ automatic_tag c n tg)
 }.
 
 Definition inters_sim (m m' : list (iid * interaction)) : Prop :=
@@ -941,9 +1072,9 @@ Definition inters_sim (m m' : list (iid * interaction)) : Prop :=
 Definition tags_sim (m m' : list (bytes * tag)) : Prop :=
   map fst m' = map fst m /\
   (forall n t', In (n, t') m' ->
-     exists t, In (n, t) m /\ t_title t' = t_title t /\ t_http t' = t_http t /\ t_rpc t' = t_rpc t) /\
+     exists t, In (n, t) m /\ t_title t' = t_title t /\ t_http t' = t_http t /\ t_rpc t' = t_rpc t /\ t_auto t' = t_auto t) /\
   (forall n t, In (n, t) m ->
-     exists t', In (n, t') m' /\ t_title t' = t_title t /\ t_http t' = t_http t /\ t_rpc t' = t_rpc t).
+     exists t', In (n, t') m' /\ t_title t' = t_title t /\ t_http t' = t_http t /\ t_rpc t' = t_rpc t /\ t_auto t' = t_auto t).
 
 Lemma inters_sim_refl m : inters_sim m m.
 Proof.
@@ -970,7 +1101,7 @@ Proof.
 Qed.
 
 Lemma tags_sim_update m k f :
-  (forall t, t_title (f t) = t_title t /\ t_http (f t) = t_http t /\ t_rpc (f t) = t_rpc t) ->
+  (forall t, t_title (f t) = t_title t /\ t_http (f t) = t_http t /\ t_rpc (f t) = t_rpc t /\ t_auto (f t) = t_auto t) ->
   tags_sim m (om_update beq m k f).
 Proof.
   intro Hf. split; [apply om_update_keys|]. split.
@@ -998,21 +1129,23 @@ Proof.
   - rewrite Tk. apply (ci_tags _ _ I).
   - rewrite Ik. apply (ci_inters _ _ I).
   - intros i x' H. destruct (Ib i x' H) as [x [H1 [H2 [H3 _]]]].
-    destruct (ci_src _ _ I i x H1) as [A [t [anc [B [C [D E]]]]]].
-    split; [congruence|]. exists t, anc. repeat split; auto; congruence.
+    destruct (ci_src _ _ I i x H1) as [A [t [anc [B [C [D [E F]]]]]]].
+    split; [congruence|]. exists t, anc. split; [exact B|]. split; [exact C|]. split; [congruence|]. split; [congruence|].
+    intros td Hu n Hn. rewrite H3 in Hn. destruct (F td Hu n Hn) as [tg [G1 G2]].
+    destruct (Tf n tg G1) as [tg' [G3 [_ [_ [_ G4]]]]]. exists tg'. split; [exact G3 | congruence].
   - intros i x' n H Hn. destruct (Ib i x' H) as [x [H1 [_ [H3 _]]]]. rewrite H3 in Hn.
     destruct (ci_t1 _ _ I i x n H1 Hn) as [tg [G1 G2]].
-    destruct (Tf n tg G1) as [tg' [G3 [_ [G4 G5]]]].
+    destruct (Tf n tg G1) as [tg' [G3 [_ [G4 [G5 _]]]]].
     exists tg'. split; [exact G3|]. rewrite (tl_same _ _ _ G4 G5). exact G2.
-  - intros n tg' p j H Hj. destruct (Tb n tg' H) as [tg [G1 [_ [G2 G3]]]].
+  - intros n tg' p j H Hj. destruct (Tb n tg' H) as [tg [G1 [_ [G2 [G3 _]]]]].
     rewrite (tl_same _ _ _ G2 G3) in Hj.
     destruct (ci_t2 _ _ I n tg p j G1 Hj) as [A [x [B C]]].
     split; [exact A|]. destruct (If j x B) as [x' [D E]]. exists x'. split; [exact D|]. rewrite E; exact C.
   - intros j y H. destruct (Ib j y H) as [x [_ [_ [_ Hb]]]]. apply Hb. apply (ci_bodies _ _ I).
-  - intros n tg' H. destruct (Tb n tg' H) as [tg [G1 [G2 _]]].
-    destruct (ci_titles _ _ I n tg G1) as [[t [A [B [C D]]]]|[i [A [B C]]]].
-    + left. exists t. repeat split; auto. congruence.
-    + right. exists i. rewrite Ik. repeat split; auto. congruence.
+  - intros n tg' H. destruct (Tb n tg' H) as [tg [G1 [G2 [_ [_ G3]]]]].
+    destruct (ci_titles _ _ I n tg G1) as [[Au [t [A [B [C D]]]]]|[Au [i [A [B C]]]]].
+    + left. split; [congruence|]. exists t. repeat split; auto. congruence.
+    + right. split; [congruence|]. exists i. rewrite Ik. repeat split; auto. congruence.
 Qed.
 
 Lemma cat_inv_method ts c c' t anc i x ns tg :
@@ -1025,7 +1158,7 @@ Lemma cat_inv_method ts c c' t anc i x ns tg :
   cat_inv ts c'.
 Proof.
   intros I Hocc Hmade Hfresh Htags Hproto Hit Hbod He Hs Hty Hin Htg.
-  apply tags_for_spec in Htags as [Hspec [Hne R]].
+  apply tags_for_spec in Htags as [Hspec [Hne [R Hdecl]]].
   assert (Hkeys : In i (map fst (c_inters c'))).
   { rewrite Hin, map_app. apply in_or_app; right; left; reflexivity. }
   constructor.
@@ -1037,11 +1170,17 @@ Proof.
     + rewrite K2. apply NoDup_app_snoc; [apply (ci_tags _ _ I) | exact K1].
   - rewrite Hin, map_app. simpl. apply NoDup_app_snoc; [apply (ci_inters _ _ I) | exact Hfresh].
   - intros j y H. rewrite Hin in H. apply in_app_or in H as [H|[H|[]]].
-    + exact (ci_src _ _ I j y H).
-    + inversion H; subst j y. split; [exact Hproto|]. exists t, anc. repeat split; auto; congruence.
+    + destruct (ci_src _ _ I j y H) as [A [t0 [anc0 [B [C [D [E F]]]]]]].
+      split; [exact A|]. exists t0, anc0. repeat split; auto.
+      intros td Hu n Hn. destruct (F td Hu n Hn) as [tg0 [G1 G2]].
+      destruct (tr_fwd _ _ _ _ R n tg0 G1) as [tg' [G3 [_ [_ [G4 _]]]]]. exists tg'. rewrite Htg. split; [exact G3 | congruence].
+    + inversion H; subst j y. split; [exact Hproto|]. exists t, anc.
+      split; [exact Hocc|]. split; [exact Hmade|]. split; [congruence|]. split; [congruence|].
+      intros td Hu n Hn. rewrite Hit in Hn. destruct (Hdecl td Hu n Hn) as [tg0 [G1 G2]].
+      destruct (tr_fwd _ _ _ _ R n tg0 G1) as [tg' [G3 [_ [_ [G4 _]]]]]. exists tg'. rewrite Htg. split; [exact G3 | congruence].
   - intros j y n H Hn. rewrite Hin in H. rewrite Htg. apply in_app_or in H as [H|[H|[]]].
     + destruct (ci_t1 _ _ I j y n H Hn) as [tg0 [G1 G2]].
-      destruct (tr_fwd _ _ _ _ R n tg0 G1) as [tg' [G3 [_ [_ G4]]]].
+      destruct (tr_fwd _ _ _ _ R n tg0 G1) as [tg' [G3 [_ [_ [_ G4]]]]].
       exists tg'. split; [exact G3 | apply G4; exact G2].
     + inversion H; subst j y. rewrite Hit in Hn. exact (tr_names _ _ _ _ R n Hn).
   - intros n tg' p j H Hj. rewrite Htg in H.
@@ -1050,7 +1189,7 @@ Proof.
     { intros [A [B C]]. subst j p. split; [reflexivity|]. exists x. split.
       - rewrite Hin. apply in_or_app; right; left; reflexivity.
       - rewrite Hit; exact C. }
-    destruct (tr_back _ _ _ _ R n tg' H) as [[tg0 [G1 [_ [_ G2]]]]|[_ [_ [_ G2]]]].
+    destruct (tr_back _ _ _ _ R n tg' H) as [[tg0 [G1 [_ [_ [_ G2]]]]]|[_ [_ [_ [_ G2]]]]].
     + destruct (G2 p j Hj) as [G|G]; [|exact (Hnew G)].
       destruct (ci_t2 _ _ I n tg0 p j G1 G) as [A [y [B C]]].
       split; [exact A|]. exists y. split; [|exact C]. rewrite Hin. apply in_or_app; left; exact B.
@@ -1059,12 +1198,12 @@ Proof.
     + exact (ci_bodies _ _ I j y H).
     + inversion H; subst; exact Hbod.
   - intros n tg' H. rewrite Htg in H.
-    destruct (tr_back _ _ _ _ R n tg' H) as [[tg0 [G1 [G2 _]]]|[G1 [G2 _]]].
-    + destruct (ci_titles _ _ I n tg0 G1) as [[t0 [A [B [C D]]]]|[i0 [A [B C]]]].
-      * left. exists t0. repeat split; auto. congruence.
-      * right. exists i0. split; [|split; [exact B | congruence]].
+    destruct (tr_back _ _ _ _ R n tg' H) as [[tg0 [G1 [G2 [_ [G3 _]]]]]|[G1 [G2 [_ [G3 _]]]]].
+    + destruct (ci_titles _ _ I n tg0 G1) as [[Au [t0 [A [B [C D]]]]]|[Au [i0 [A [B C]]]]].
+      * left. split; [congruence|]. exists t0. repeat split; auto. congruence.
+      * right. split; [congruence|]. exists i0. split; [|split; [exact B | congruence]].
         rewrite Hin, map_app. apply in_or_app; left; exact A.
-    + right. exists i. repeat split; auto.
+    + right. split; [exact G3|]. exists i. repeat split; auto.
 Qed.
 
 Lemma cat_inv_step ts t anc c c' :
@@ -1092,7 +1231,7 @@ Lemma collect_tags_spec : forall sub tags tg, collect_tags sub tags = COk tg ->
   (NoDup (map fst tags) -> NoDup (map fst tg)) /\
   (forall n t, In (n, t) tg ->
      In (n, t) tags \/
-     (t_http t = [] /\ t_rpc t = [] /\ t_desc t = None /\
+     (t_http t = [] /\ t_rpc t = [] /\ t_desc t = None /\ t_auto t = false /\
       exists tr, In tr sub /\ d_kind (tree_dir tr) = KTAG /\ n = named (tree_dir tr) (bs "TagName") /\
                  t_title t = (if beq (d_annot (tree_dir tr)) [] then n else d_annot (tree_dir tr)))).
 Proof.
@@ -1104,13 +1243,13 @@ Proof.
       apply IH in H as [H1 H2]. split.
       * intro Hnd. apply H1. rewrite map_app. apply NoDup_app_snoc; [exact Hnd|].
         apply (om_has_false beq beq_eq). exact Eh.
-      * intros n t Hin. destruct (H2 n t Hin) as [Hin'|[A [B [C [tr' [D E]]]]]].
+      * intros n t Hin. destruct (H2 n t Hin) as [Hin'|[A [B [C [Au [tr' [D E]]]]]]].
         -- apply in_app_or in Hin' as [Hin'|[Hin'|[]]]; [left; exact Hin'|].
            right. inversion Hin'; subst n t; simpl. repeat split; auto.
            exists tr. split; [left; reflexivity|]. split; [apply kind_eqb_eq; exact Ek|]. split; reflexivity.
         -- right. repeat split; auto. exists tr'. split; [right; exact D | exact E].
     + apply IH in H as [H1 H2]. split; [exact H1|].
-      intros n t Hin. destruct (H2 n t Hin) as [Hin'|[A [B [C [tr' [D E]]]]]]; [left; exact Hin'|].
+      intros n t Hin. destruct (H2 n t Hin) as [Hin'|[A [B [C [Au [tr' [D E]]]]]]]; [left; exact Hin'|].
       right. repeat split; auto. exists tr'. split; [right; exact D | exact E].
 Qed.
 
@@ -1199,17 +1338,18 @@ Section BuildInv.
   Definition init_cat (en : list (bytes * bytes)) (tg : list (bytes * tag)) : catalog :=
     upd_tags (upd_enums empty_catalog en) tg.
 
-  Lemma build_stages pre post pe c :
-    build path_props body_text banned pre post pe = COk c ->
-    exists en tg, collect_enums pre pe = COk en /\ collect_tags post [] = COk tg /\
+  Lemma build_stages post c :
+    build path_props body_text banned post = COk c ->
+    exists en tg, collect_enums post [] = COk en /\ collect_tags post [] = COk tg /\
       ((post = [] /\ validate (init_cat en tg) = COk c) \/
        (exists b all, add_all body_text banned post
                         {| b_cat := init_cat en tg; b_urls := []; b_similar := []; b_protocols := [] |} = COk b /\
                       validate (set_pathvars (b_cat b) all) = COk c)).
   Proof.
     unfold build, cbind, kerr. intro H.
-    destruct (collect_enums pre pe) as [en| | |]; try discriminate H.
+    destruct (collect_enums post []) as [en| | |]; try discriminate H.
     destruct (collect_tags post []) as [tg| | |]; try discriminate H.
+    destruct (check_dup_types post []) as [u| | |]; try discriminate H.
     destruct (collect_paths_all path_props post []) as [pvs| | |]; try discriminate H.
     exists en, tg. split; [reflexivity|]. split; [reflexivity|].
     destruct post as [|first rest].
@@ -1220,15 +1360,15 @@ Section BuildInv.
       exists b, all. split; [reflexivity | exact H].
   Qed.
 
-  Lemma init_cat_inv ts pre pe en tg :
-    NoDup (map fst pe) -> collect_enums pre pe = COk en -> collect_tags ts [] = COk tg ->
+  Lemma init_cat_inv ts en tg :
+    collect_enums ts [] = COk en -> collect_tags ts [] = COk tg ->
     cat_inv ts (init_cat en tg).
   Proof.
-    intros Hpe He Ht. apply collect_tags_spec in Ht as [T1 T2].
+    intros He Ht. apply collect_tags_spec in Ht as [T1 T2].
     constructor; simpl.
     - constructor.
     - constructor.
-    - eapply collect_enums_nodup; eassumption.
+    - eapply collect_enums_nodup; [eassumption | constructor].
     - apply T1. constructor.
     - constructor.
     - intros i x [].
@@ -1236,19 +1376,28 @@ Section BuildInv.
     - intros n t p j Hin Hj. destruct (T2 n t Hin) as [[]|[A [B _]]].
       destruct p; simpl in Hj; [rewrite A in Hj | rewrite B in Hj]; destruct Hj.
     - intros j y [].
-    - intros n t Hin. destruct (T2 n t Hin) as [[]|[_ [_ [_ [tr [A [B [C D]]]]]]]].
-      left. exists tr. repeat split; auto.
+    - intros n t Hin. destruct (T2 n t Hin) as [[]|[_ [_ [_ [Au [tr [A [B [C D]]]]]]]]].
+      left. split; [exact Au|]. exists tr. repeat split; auto.
+  Qed.
+
+  Definition init_state (en : list (bytes * bytes)) (tg : list (bytes * tag)) : bstate :=
+    {| b_cat := init_cat en tg; b_urls := []; b_similar := []; b_protocols := [] |}.
+
+  Lemma step_inv post t anc s s' :
+    occurs post t anc -> cat_inv post (b_cat s) -> add_directive body_text banned t anc s = COk s' ->
+    cat_inv post (b_cat s').
+  Proof.
+    intros Hocc Is Hstep. apply add_directive_effect in Hstep. eapply cat_inv_step; eassumption.
   Qed.
 
   (* the catalog of an accepted project satisfies the invariant, and every request / response has a body *)
-  Theorem build_inv pre post pe c :
-    NoDup (map fst pe) ->
-    build path_props body_text banned pre post pe = COk c ->
+  Theorem build_inv post c :
+    build path_props body_text banned post = COk c ->
     cat_inv post c /\
     (forall i h rq, In (i, IHttp h) (c_inters c) -> hi_request h = Some rq -> exists b, q_body rq = Some b) /\
     (forall i h r, In (i, IHttp h) (c_inters c) -> In r (hi_responses h) -> exists b, r_body r = Some b).
   Proof.
-    intros Hpe H. apply build_stages in H as [en [tg [He [Ht Hcase]]]].
+    intros H. apply build_stages in H as [en [tg [He [Ht Hcase]]]].
     assert (Hfin : forall c0, cat_inv post c0 -> validate c0 = COk c ->
               cat_inv post c /\
               (forall i h rq, In (i, IHttp h) (c_inters c) -> hi_request h = Some rq -> exists b, q_body rq = Some b) /\
@@ -1256,20 +1405,34 @@ Section BuildInv.
     { intros c0 I V. apply validate_ok in V as [-> [V1 V2]]. split; [exact I|]. split.
       - apply first_bad_request_none; exact V1.
       - apply first_bad_response_none; exact V2. }
-    pose proof (init_cat_inv post pre pe en tg Hpe He Ht) as I0.
+    pose proof (init_cat_inv post en tg He Ht) as I0.
     destruct Hcase as [[_ V]|[b [all [Hadd V]]]].
     - exact (Hfin _ I0 V).
     - apply (Hfin (set_pathvars (b_cat b) all)); [|exact V].
       assert (Ib : cat_inv post (b_cat b)).
       { apply (add_all_inv body_text banned post (fun s => cat_inv post (b_cat s))) with (2 := I0) (3 := Hadd).
-        intros t anc s s' Hocc Is Hstep. apply add_directive_effect in Hstep.
-        eapply cat_inv_step; eassumption. }
+        intros t anc s s' Hocc Is Hstep. eapply step_inv; eassumption. }
       apply (cat_inv_sim post (b_cat b)); try exact Ib.
       + apply (ci_servers _ _ Ib).
       + apply (ci_types _ _ Ib).
       + reflexivity.
       + apply tags_sim_refl.
       + apply set_pathvars_sim.
+  Qed.
+
+  (* every node of the forest of an accepted project was given to add_directive, successfully, in a
+     state that satisfies the invariant *)
+  Theorem build_visits post c t anc :
+    build path_props body_text banned post = COk c -> occurs post t anc ->
+    exists s s', cat_inv post (b_cat s) /\ add_directive body_text banned t anc s = COk s'.
+  Proof.
+    intros H Hocc. apply build_stages in H as [en [tg [He [Ht Hcase]]]].
+    pose proof (init_cat_inv post en tg He Ht) as I0.
+    destruct Hcase as [[Hnil _]|[b [all [Hadd _]]]].
+    - subst post. exfalso. clear -Hocc. induction Hocc as [t []|p anc t _ IH _]; exact IH.
+    - apply (add_all_visits body_text banned post (fun s => cat_inv post (b_cat s))) with (b := init_state en tg) (b' := b);
+        [|exact I0|exact Hadd|exact Hocc].
+      intros t0 anc0 s s' Hocc0 Is Hstep. eapply step_inv; eassumption.
   Qed.
 End BuildInv.
 
@@ -1340,17 +1503,32 @@ Proof.
   - intro E. unfold auto_tag_name. rewrite E. reflexivity.
 Qed.
 
+(* a top-level TAG directive of the forest declares the name *)
+Definition declared_name (ts : list dtree) (n : bytes) : Prop :=
+  exists t, In t ts /\ d_kind (tree_dir t) = KTAG /\ n = named (tree_dir t) (bs "TagName").
+
+Lemma declared_tag_name ts n tg : declared_tag ts n tg -> declared_name ts n.
+Proof. intros [t [A [B [C _]]]]. exists t. repeat split; assumption. Qed.
+
+(* the KTags case of add_directive (core.addTags -> catalog.CheckTags) *)
+Lemma add_directive_tags body_text banned t anc b :
+  d_kind (tree_dir t) = KTags ->
+  add_directive body_text banned t anc b =
+  if kind_in KTags banned then CErr (kw_err (tree_dir t) (CENotAllowed KTags))
+  else tags_from_directive (tree_dir t) None (c_tags (b_cat b)) >>=c fun _ => COk b.
+Proof.
+  intro Hk. unfold add_directive. cbv zeta. rewrite Hk. reflexivity.
+Qed.
+
 Section Final.
   Variable path_props : coords -> option (list bytes).
   Variable body_text : coords -> bytes.
   Variable banned : list kind.
-  Variables pre post : list dtree.
-  Variable pe : list (bytes * bytes).
+  Variable post : list dtree.
   Variable c : catalog.
-  Hypothesis Hpe : NoDup (map fst pe).
-  Hypothesis Hbuild : build path_props body_text banned pre post pe = COk c.
+  Hypothesis Hbuild : build path_props body_text banned post = COk c.
 
-  Let I : cat_inv post c := proj1 (build_inv path_props body_text banned pre post pe c Hpe Hbuild).
+  Let I : cat_inv post c := proj1 (build_inv path_props body_text banned post c Hbuild).
 
   Lemma keys_unique_lemma :
     NoDup (map fst (c_servers c)) /\ NoDup (map fst (c_types c)) /\ NoDup (map fst (c_enums c)) /\
@@ -1399,7 +1577,7 @@ Section Final.
   Lemma bodies_present_lemma :
     (forall i h rq, In (i, IHttp h) (c_inters c) -> hi_request h = Some rq -> exists b, q_body rq = Some b) /\
     (forall i h r, In (i, IHttp h) (c_inters c) -> In r (hi_responses h) -> exists b, r_body r = Some b).
-  Proof. exact (proj2 (build_inv path_props body_text banned pre post pe c Hpe Hbuild)). Qed.
+  Proof. exact (proj2 (build_inv path_props body_text banned post c Hbuild)). Qed.
 
   Lemma format_matches_notation_lemma : forall i h, In (i, IHttp h) (c_inters c) ->
     (forall rq b, hi_request h = Some rq -> q_body rq = Some b -> body_ok b) /\
@@ -1407,7 +1585,7 @@ Section Final.
   Proof. intros i h H. exact (ci_bodies _ _ I i (IHttp h) H). Qed.
 
   Lemma every_interaction_tagged_lemma : forall i x, In (i, x) (c_inters c) -> itags x <> [].
-  Proof. intros i x H. destruct (ci_src _ _ I i x H) as [_ [t [anc [_ [_ [_ E]]]]]]. exact E. Qed.
+  Proof. intros i x H. destruct (ci_src _ _ I i x H) as [_ [t [anc [_ [_ [_ [E _]]]]]]]. exact E. Qed.
 
   Lemma explicit_tags_win_lemma : forall i x, In (i, x) (c_inters c) ->
     exists t anc, occurs post t anc /\ made_by t anc i /\ itags x = tag_spec t anc i.
@@ -1416,27 +1594,91 @@ Section Final.
     exists t, anc. repeat split; assumption.
   Qed.
 
+  (* every tag is a TAG directive's (not automatic) or the automatic tag of an interaction's path *)
   Lemma declared_title_lemma : forall n tg, In (n, tg) (c_tags c) ->
-    declared_tag post n tg \/ automatic_tag c n tg.
+    (t_auto tg = false /\ declared_tag post n tg) \/ (t_auto tg = true /\ automatic_tag c n tg).
   Proof. apply (ci_titles _ _ I). Qed.
 
-  (* every tag name an interaction carries is a key of the tag collection, and that tag is a TAG
-     directive's or an automatic one *)
+  (* every tag name an interaction carries is a key of the tag collection *)
   Lemma used_tags_exist_lemma : forall i x n, In (i, x) (c_inters c) -> In n (itags x) ->
-    exists tg, In (n, tg) (c_tags c) /\ (declared_tag post n tg \/ automatic_tag c n tg).
+    exists tg, In (n, tg) (c_tags c) /\
+               ((t_auto tg = false /\ declared_tag post n tg) \/ (t_auto tg = true /\ automatic_tag c n tg)).
   Proof.
     intros i x n H Hn. destruct (ci_t1 _ _ I i x n H Hn) as [tg [A _]].
     exists tg. split; [exact A | exact (ci_titles _ _ I n tg A)].
   Qed.
+
+  (* FULL: the tags an interaction takes from a Tags directive are all declared by TAG directives *)
+  Lemma explicit_tags_declared_lemma : forall i x, In (i, x) (c_inters c) ->
+    exists t anc, occurs post t anc /\ made_by t anc i /\ itags x = tag_spec t anc i /\
+      forall td, used_tags_directive t anc = Some td ->
+      forall n, In n (itags x) ->
+        declared_name post n /\ exists tg, In (n, tg) (c_tags c) /\ t_auto tg = false /\ declared_tag post n tg.
+  Proof.
+    intros i x H. destruct (ci_src _ _ I i x H) as [_ [t [anc [A [B [C [_ F]]]]]]].
+    exists t, anc. split; [exact A|]. split; [exact B|]. split; [exact C|].
+    intros td Hu n Hn. destruct (F td Hu n Hn) as [tg [G1 G2]].
+    destruct (ci_titles _ _ I n tg G1) as [[_ D]|[Au _]]; [|congruence].
+    split; [exact (declared_tag_name _ _ _ D)|]. exists tg. repeat split; assumption.
+  Qed.
+
+  (* the KTags adder: EVERY Tags directive of the expanded forest - whether or not a method takes its
+     tags from it - is well-formed and names declared tags only *)
+  Lemma tags_directive_checked_lemma : forall t anc, occurs post t anc -> d_kind (tree_dir t) = KTags ->
+    d_annot (tree_dir t) = [] /\ d_unnamed (tree_dir t) <> [] /\
+    forall n, In n (d_unnamed (tree_dir t)) -> declared_name post n.
+  Proof.
+    intros t anc Hocc Hk.
+    destruct (build_visits path_props body_text banned post c t anc Hbuild Hocc) as [s [s' [Is Hstep]]].
+    rewrite (add_directive_tags _ _ _ _ _ Hk) in Hstep.
+    destruct (kind_in KTags banned); [discriminate Hstep|].
+    destruct (tags_from_directive (tree_dir t) None (c_tags (b_cat s))) as [r| | |] eqn:E; try discriminate Hstep.
+    split; [|split].
+    - rewrite tags_from_directive_unfold in E. destruct (beq (d_annot (tree_dir t)) []) eqn:Ea; [|discriminate E].
+      apply beq_eq; exact Ea.
+    - rewrite tags_from_directive_unfold in E. destruct (negb (beq (d_annot (tree_dir t)) [])); [discriminate E|].
+      destruct (d_unnamed (tree_dir t)); [discriminate E | discriminate].
+    - intros n Hn. destruct (tags_from_directive_ok _ _ _ _ E n Hn) as [tg [G1 G2]].
+      destruct (ci_titles _ _ Is n tg G1) as [[_ D]|[Au _]]; [|congruence].
+      exact (declared_tag_name _ _ _ D).
+  Qed.
 End Final.
+
+(* contrapositive: a Tags directive naming something no TAG directive declares => not accepted *)
+Lemma undeclared_tags_directive_rejected_lemma path_props body_text banned post t anc n :
+  occurs post t anc -> d_kind (tree_dir t) = KTags -> In n (d_unnamed (tree_dir t)) ->
+  ~ declared_name post n ->
+  forall c, build path_props body_text banned post <> COk c.
+Proof.
+  intros Hocc Hk Hn Hnd c Hb.
+  destruct (tags_directive_checked_lemma path_props body_text banned post c Hb t anc Hocc Hk) as [_ [_ H]].
+  exact (Hnd (H n Hn)).
+Qed.
+
+(* under the invariant, "key of a non-automatic tag" is "declared by a TAG directive": the verdict of
+   tags_for for a name that no TAG directive declares, in any state the fold can reach *)
+Lemma tags_for_undeclared_inv ts c me anc i td n :
+  cat_inv ts c -> used_tags_directive me anc = Some td -> d_annot td = [] ->
+  In n (d_unnamed td) -> ~ declared_name ts n ->
+  tags_for me anc i (c_tags c) = CErr (kw_err td (CEMsg "tag not found")).
+Proof.
+  intros I Hu Ha Hn Hnd. apply tags_for_undeclared with (n := n); auto.
+  intros t Ht. destruct (ci_titles _ _ I n t Ht) as [[_ D]|[Au _]]; [|exact Au].
+  exfalso. exact (Hnd (declared_tag_name _ _ _ D)).
+Qed.
 
 Lemma title_is_info_title_lemma c :
   japi_title c = match c_info c with Some i => in_title i | None => [] end.
 Proof. reflexivity. Qed.
 
+Lemma enum_names_unique_lemma ts en : collect_enums ts [] = COk en -> NoDup (map fst en).
+Proof. intro H. eapply collect_enums_nodup; [exact H | constructor]. Qed.
+
 (* ------------------------------------------------------------------------------------- *)
 (* examples (vm_compute on the model), on the forests the scanner produces for the quoted
-   documents (coordinates as printed by `run stage=expand`)                                *)
+   documents (coordinates as printed by `run stage=expand`; the documents are EXAMPLES of
+   verifsys/checks/c19.py - a blank line after JSIGHT and between top-level directives, except the
+   last one - and the JSON-RPC reproducer of c09.py)                                            *)
 
 Local Open Scope string_scope.
 
@@ -1446,10 +1688,10 @@ Definition ex_dir (k : kind) (kw : string) (pos : N) (np : list (string * string
      d_named := map (fun e => (bs (fst e), bs (snd e))) np; d_unnamed := map bs up; d_annot := bs ann;
      d_body := None; d_explicit := false; d_trace := [] |}.
 
-Definition ex_build (ts : list dtree) : cres catalog := build (fun _ => None) (fun _ => []) [] ts ts [].
+Definition ex_build (ts : list dtree) : cres catalog := build (fun _ => None) (fun _ => []) [] ts.
 
 Definition skeleton_of (c : catalog) :=
-  (map (fun e => (fst e, t_title (snd e), t_http (snd e), t_rpc (snd e))) (c_tags c),
+  (map (fun e => (fst e, t_title (snd e), t_http (snd e), t_rpc (snd e), t_auto (snd e))) (c_tags c),
    map (fun e => (iid_string (fst e), fst e, itags (snd e))) (c_inters c)).
 
 (* JSIGHT 0.3 / URL /a { Protocol json-rpc-2.0, Method "x /b" } / URL "/b /a" { Protocol json-rpc-2.0, Method x } *)
@@ -1482,7 +1724,7 @@ Definition ex_get_y : iid := {| i_proto := PHttp; i_method := bs "GET"; i_path :
 
 Lemma declared_tag_captures_automatic_lemma :
   exists c, ex_build ex_captured_forest = COk c /\
-    skeleton_of c = ([(bs "@x", bs "My X", [ex_get_x], [])], [(bs "http GET /x", ex_get_x, [bs "@x"])]) /\
+    skeleton_of c = ([(bs "@x", bs "My X", [ex_get_x], [], false)], [(bs "http GET /x", ex_get_x, [bs "@x"])]) /\
     auto_tag_name (bs "/x") = bs "@x" /\ pathTagTitle (bs "/x") = bs "/x".
 Proof.
   eexists. split; [vm_compute; reflexivity|]. repeat split; vm_compute; reflexivity.
@@ -1502,78 +1744,27 @@ Definition ex_swapped_forest : list dtree :=
     DNode (ex_dir KGet "GET" 12 [("Path", "/y")] [] "")
       [ DNode (ex_dir KTags "Tags" 21 [] ["@x"] "") [];
         DNode (ex_dir KHTTPResponseCode "200" 31 [("SchemaNotation", "any")] [] "") [] ];
-    DNode (ex_dir KGet "GET" 38 [("Path", "/x")] [] "")
-      [ DNode (ex_dir KHTTPResponseCode "200" 47 [("SchemaNotation", "any")] [] "") [] ] ].
+    DNode (ex_dir KGet "GET" 40 [("Path", "/x")] [] "")
+      [ DNode (ex_dir KHTTPResponseCode "200" 49 [("SchemaNotation", "any")] [] "") [] ] ].
 
-(* "each must be declared by a TAG directive or the document is rejected" does not hold: a Tags
-   directive may name the AUTOMATIC tag an earlier interaction created; the verdict depends on
-   the order of the interactions *)
-Lemma undeclared_tag_accepted :
-  (forall t, In t ex_undeclared_forest -> d_kind (tree_dir t) <> KTAG) /\
-  (exists c, ex_build ex_undeclared_forest = COk c /\
-     skeleton_of c = ([(bs "@x", bs "/x", [ex_get_x; ex_get_y], [])],
-                      [(bs "http GET /x", ex_get_x, [bs "@x"]); (bs "http GET /y", ex_get_y, [bs "@x"])])) /\
-  (exists e, ex_build ex_swapped_forest = CErr e /\ ce_kind e = CEMsg "tag not found" /\ ce_idx e = 21).
+(* JSIGHT 0.3 / TAG @a / URL /u { Tags @b, GET { Tags @a, 200 any } }: the URL's Tags names an
+   undeclared tag and NO method takes its tags from it *)
+Definition ex_unused_tags_forest : list dtree :=
+  [ DNode (ex_dir KJsight "JSIGHT" 0 [("Version", "0.3")] [] "") [];
+    DNode (ex_dir KTAG "TAG" 11 [("TagName", "@a")] [] "") [];
+    DNode (ex_dir KURL "URL" 18 [("Path", "/u")] [] "")
+      [ DNode (ex_dir KTags "Tags" 27 [] ["@b"] "") [];
+        DNode (ex_dir KGet "GET" 37 [] [] "")
+          [ DNode (ex_dir KTags "Tags" 45 [] ["@a"] "") [];
+            DNode (ex_dir KHTTPResponseCode "200" 57 [("SchemaNotation", "any")] [] "") [] ] ] ].
+
+(* the order of the interactions no longer matters: a Tags directive naming the automatic tag of
+   another interaction is answered "tag not found" at the Tags directive in both orders; and a Tags
+   directive that no method inherits is checked all the same *)
+Lemma undeclared_tag_examples :
+  (exists e, ex_build ex_undeclared_forest = CErr e /\ ce_kind e = CEMsg "tag not found" /\ ce_idx e = 39) /\
+  (exists e, ex_build ex_swapped_forest = CErr e /\ ce_kind e = CEMsg "tag not found" /\ ce_idx e = 21) /\
+  (exists e, ex_build ex_unused_tags_forest = CErr e /\ ce_kind e = CEMsg "tag not found" /\ ce_idx e = 27).
 Proof.
-  split; [|split].
-  - intros t [H|[H|[H|[]]]]; subst t; discriminate.
-  - eexists. split; vm_compute; reflexivity.
-  - eexists. split; [vm_compute; reflexivity|]. split; reflexivity.
-Qed.
-
-(* ------------------------------------------------------------------------------------- *)
-(* the enum names registered while pasting (Core.expand_full) are pairwise different, so the
-   hypothesis [NoDup (map fst pe)] of the theorems above holds for what the pipeline passes  *)
-
-Lemma collect_rules_nodup : forall ts enums en,
-  collect_rules ts enums = COk en -> NoDup enums -> NoDup en.
-Proof.
-  induction ts as [|t r IH]; intros enums en H Hnd; cbn [collect_rules] in H.
-  - inversion H; subst; exact Hnd.
-  - destruct (kind_eqb (d_kind (tree_dir t)) KEnum); [|exact (IH _ _ H Hnd)].
-    destruct (beq (named (tree_dir t) (bs "Name")) []); [discriminate H|].
-    destruct (d_body (tree_dir t)); [|exact (IH _ _ H Hnd)].
-    destruct (name_in (named (tree_dir t) (bs "Name")) enums) eqn:E; [discriminate H|].
-    apply (IH _ _ H). constructor; [|exact Hnd].
-    intro Hin. unfold name_in in E.
-    assert (existsb (beq (named (tree_dir t) (bs "Name"))) enums = true).
-    { apply existsb_exists. exists (named (tree_dir t) (bs "Name")). split; [exact Hin | apply beq_refl]. }
-    congruence.
-Qed.
-
-Lemma paste_list_enums_nodup : forall fuel m ts p p',
-  paste_list fuel m ts p = COk p' -> NoDup (ps_enums p) -> NoDup (ps_enums p').
-Proof.
-  induction fuel as [|f IH]; intros m ts p p' H Hnd; [discriminate H|].
-  cbn [paste_list] in H. destruct ts as [|t r]; [inversion H; subst; exact Hnd|].
-  unfold cbind in H.
-  match type of H with (match ?X with _ => _ end) = _ => destruct X as [p2| | |] eqn:E end; try discriminate H.
-  apply (IH _ _ _ _ H). clear H.
-  destruct (kind_eqb (d_kind (tree_dir t)) KPaste).
-  - destruct (negb (beq (d_annot (tree_dir t)) [])); [discriminate E|].
-    destruct (beq (named (tree_dir t) (bs "Name")) []); [discriminate E|].
-    destruct (macro_lookup m (named (tree_dir t) (bs "Name"))) as [mt|]; [|discriminate E].
-    destruct (collect_rules (tree_kids mt) (ps_enums p)) as [en| | |] eqn:Ec; try discriminate E.
-    destruct (paste_list f m (tree_kids mt) {| ps_frames := ps_frames p; ps_roots := ps_roots p; ps_enums := en |}) as [q| | |] eqn:Ep;
-      try discriminate E.
-    inversion E; subst q. apply (IH _ _ _ _ Ep). simpl. eapply collect_rules_nodup; eassumption.
-  - destruct (process_context (ctx_fuel (ps_frames p)) (tree_dir t) (ps_frames p) (ps_roots p)) as [fr| | |]; try discriminate E.
-    destruct (paste_list f m (tree_kids t) {| ps_frames := fst fr; ps_roots := snd fr; ps_enums := ps_enums p |}) as [p1| | |] eqn:Ep;
-      try discriminate E.
-    assert (H1 : NoDup (ps_enums p1)) by (apply (IH _ _ _ _ Ep); exact Hnd).
-    destruct (d_explicit (tree_dir t)).
-    + destruct (close_to (S (List.length (ps_frames p1))) (List.length (fst fr) - 1) (ps_frames p1) (ps_roots p1)) as [fr2 rt2].
-      inversion E; subst p2. exact H1.
-    + inversion E; subst p2. exact H1.
-Qed.
-
-Lemma expand_full_enums_nodup ts pre post pen m :
-  expand_full ts = COk (pre, post, pen, m) -> NoDup pen.
-Proof.
-  unfold expand_full, cbind. intro H.
-  destruct (collect_macro ts []) as [[rest m0]| | |]; try discriminate H.
-  destruct (check_all_macros _ m0 (map fst m0) []); try discriminate H.
-  destruct (paste_list (expand_fuel rest m0) m0 rest {| ps_frames := []; ps_roots := []; ps_enums := [] |}) as [p| | |] eqn:E;
-    try discriminate H.
-  inversion H; subst. apply NoDup_rev. apply (paste_list_enums_nodup _ _ _ _ _ E). constructor.
+  split; [|split]; eexists; (split; [vm_compute; reflexivity|]); split; reflexivity.
 Qed.
